@@ -192,6 +192,44 @@ fn c01_engine() {
     println!("NONE {}", cases);
 }
 
+
+/// C20/C01: :nth-child(an+b) against the integer definition {a*n+b | n >= 0}, incl. extreme coefficients
+fn c20_nth() {
+    let coeffs: [i64; 11] = [-2147483647, -5, -2, -1, 0, 1, 2, 3, 5, 2147483647, 99999999999];
+    let mut cases = 0u64;
+    for &a in &coeffs { for &b in &coeffs { for nchild in [1usize, 2, 5] {
+        let arg = if a == 0 { format!("{}", b) } else { format!("{}n{}{}", a, if b >= 0 { "+" } else { "-" }, b.abs()) };
+        let css = format!("li:nth-child({}){{display:none;}}", arg);
+        let mut html = String::from("<ul>");
+        for i in 1..=nchild { html.push_str(&format!("<li>k{}</li>", i)); }
+        html.push_str("</ul>");
+        cases += 1;
+        let css2 = css.clone(); let html2 = html.clone();
+        let r = panic::catch_unwind(move || {
+            match config::plain().add_css(&css2) {
+                Ok(c) => c.string_from_read(html2.as_bytes(), 40).ok(),
+                Err(_) => None,   // a parse error is an allowed outcome (C17)
+            }
+        });
+        match r {
+            Err(_) => found("c20_nth", &format!("css={} html={}", css, html), "panic"),
+            Ok(None) => {}
+            Ok(Some(out)) => {
+                if a.abs() > 2147483647 || b.abs() > 2147483647 { continue; }
+                for idx in 1..=(nchild as i64) {
+                    // exists n >= 0: idx == a*n + b
+                    let hit = if a == 0 { idx == b } else { (idx - b) % a == 0 && (idx - b) / a >= 0 };
+                    let shown = out.contains(&format!("k{}", idx));
+                    if shown == hit {
+                        found("c20_nth", &format!("css={} html={}", css, html), &format!("child {} should be {} but output is {:?}", idx, if hit { "hidden (matched)" } else { "shown (not matched)" }, out));
+                    }
+                }
+            }
+        }
+    }}}
+    println!("NONE {}", cases);
+}
+
 fn main() {
     let mode = std::env::args().nth(1).unwrap_or_default();
     panic::set_hook(Box::new(|_| {}));
@@ -199,6 +237,7 @@ fn main() {
         "c19" => c19(),
         "c19_inherit" => c19_inherit(),
         "dbg" => dbg(),
+        "c20_nth" => c20_nth(),
         "c01_engine" => c01_engine(),
         "c02_tables" => c02_tables(),
         "c03_tables" => c03_tables(),
